@@ -224,6 +224,7 @@ func vfDrawC08World(t *rapid.T) (r *vfC08Run) {
 	wc := &vfWorldConf{
 		ProtectionEnabled: true, FilteringEnabled: true, ServerName: "dns.vf.test",
 		WithLogStats: true, Anonymize: c.Anonymize != c.AnonymizeViaAPI, RefuseAny: c.RefuseAny, QLogMemSize: 1000,
+		QLogSentinel: true,
 		HTTPRegister: func(method, url string, h http.HandlerFunc) { r.handlers[method+" "+url] = h },
 		DHCPMAC:      map[netip.Addr]net.HardwareAddr{},
 	}
@@ -446,6 +447,9 @@ func (r *vfC08Run) runQueries(t *rapid.T) {
 func (r *vfC08Run) expected(qs []*vfC08Q, logged bool) (exp map[string]int, amb map[string]bool) {
 	exp = map[string]int{}
 	amb = map[string]bool{}
+	if logged {
+		exp[vfSentinelHost+" "+vfSentinelIP] = 1
+	}
 	for _, q := range qs {
 		name := strings.ToLower(strings.TrimSuffix(q.Name, "."))
 		if q.Name == "." {
